@@ -421,6 +421,7 @@ func runHistory(c *caseT) (string, error) {
 		"max-request-elapsed-time": "1s",
 	}
 	dyn := os.Getenv("C20_DYNAMIC_HEADERS") != "" // experiment only (handoff/C20.md): not part of the check
+	bulk := false
 	if dyn {
 		ht["dynamic-headers"] = []string{"svc"}
 	}
@@ -429,6 +430,9 @@ func runHistory(c *caseT) (string, error) {
 	for _, iv := range c.invs {
 		hsum = hsum*31 + iv.ndp*7 + iv.pre*3 + iv.post + iv.lat
 	}
+	// ... nor may the size of a flush: in one case out of five every datapoint arrives together with 600 other series
+	// (names the fake upstream ignores), so an invocation with two datapoints flushes more than a thousand names
+	bulk = (((hsum/9)%5)+5)%5 == 0
 	ht["consolidator-slots"] = []int{1, 2, 4}[((hsum%3)+3)%3]
 	ht["concurrent-merge"] = []int{1, 2, 4}[(((hsum/3)%3)+3)%3]
 	v.Set("http-transport", ht)
@@ -568,6 +572,11 @@ func runHistory(c *caseT) (string, error) {
 			tagsKey = tags[0]
 		}
 		m := &pb.RawMessageV2{Counters: map[string]*pb.CounterTagV2{dpName(id): {TagMap: map[string]*pb.RawCounterV2{tagsKey: {Value: 1, Tags: tags}}}}}
+		if bulk {
+			for j := 0; j < 600; j++ {
+				m.Counters[fmt.Sprintf("verif.fill.%d.%d", id, j)] = &pb.CounterTagV2{TagMap: map[string]*pb.RawCounterV2{tagsKey: {Value: 1, Tags: tags}}}
+			}
+		}
 		b, _ := proto.Marshal(m)
 		resp, err := client.Post("http://"+ingestAddr+"/v2/raw", "application/x-protobuf", bytes.NewReader(b))
 		if err != nil {
